@@ -131,6 +131,7 @@ def check_model(spec):
     s = spec["settings"] if "lib" not in spec else {"start": spec["start"], "dt": spec["dt"]}
     if abs(dt - s["dt"]) > 0 or np.any(np.abs(t - (s["start"] + np.arange(len(t)) * dt)) > 1e-9 * np.maximum(1.0, np.abs(t))):
         raise Violation(ID, "grid/model-time-vector", "model time vector is not start+k*dt: dt=%r spacing=%r points=%d settings=%r" % (dt, (t[-1] - t[0]) / max(1, len(t) - 1), len(t), s))
+    oracles.check_structure(spec, res, ID, ("links", "residual", "timed"))
     rp = replay.Replay(res)
     T = len(t)
     units = set()
